@@ -46,14 +46,18 @@ TEXT["C03"] = dict(
         "sparse.rs:compress (scan, StormLib's 0x81 quirk, zero-run splitting, tail flush) is proved to emit a well-formed "
         "token stream standing for its input, the decoder model is proved correct on such streams with an over-long final "
         "zero marker, hence decode(compress d) = d for every non-empty d < 4 GiB, and through the store-raw front end for "
-        "every d. The statement 'the compressor's own output is always accepted' is FALSE of the code: proved as "
+        "every d. The lossy selectors: an exact model of the in-tree IMA ADPCM encoder and decoder (adpcm.rs, mono and "
+        "stereo) with adpcm_length (the decoder accepts the encoder's stream and returns exactly the input length, every "
+        "input, level and channel count), adpcm_functional (what comes back sample for sample: step-size markers never move "
+        "a sample to the other channel) and adpcm_stereo_is_two_monos (the stereo codec on an interleaved signal is the "
+        "interleaving of the mono codec on each channel - channel interleaving is preserved). The statement 'the compressor's own output is always accepted' is FALSE of the code: proved as "
         "_partial under the ratio hypothesis, with a kernel-checked witness that is replayed on the implementation "
         "(known finding D2). Tied to the code by differential execution of framing decisions, selector support, "
-        "acceptance outcomes, sparse encoding (byte for byte) and decoding, and by a round-trip / never-expands oracle over all selectors."),
-  note=("third-party codecs are parameters (round trip sampled, not proved); ADPCM is observed only. Known findings D2 (ratio limits reject own output) and D25 (PKWare output undecodable); two "
+        "acceptance outcomes, sparse and ADPCM encoding (byte for byte) and decoding (own, mutated and truncated streams), and by a round-trip / never-expands oracle over all selectors."),
+  note=("third-party codecs and the in-tree Huffman codec are parameters (round trip sampled, not proved). Known findings D2 (ratio limits reject own output) and D25 (PKWare output undecodable); two "
         "defects repaired (PKWare ASCII-mode panic; ADPCM+BZip2 blocks rejected on read because the intermediate stage was "
         "held to an exact size)."),
-  technique="Lean 4 proof (arithmetic closed form, sparse codec round trip by induction over the compressor's scan) + differential correspondence + round-trip oracle")
+  technique="Lean 4 proof (arithmetic closed form; sparse codec round trip by induction over the compressor's scan; ADPCM length / channel independence by induction over marker groups) + differential correspondence + round-trip oracle")
 TEXT["C08"] = dict(
   text=("Machine-checked Lean 4 theorems: after every history of add / remove / set-priority / clear the chain is ordered "
         "by (priority descending, insertion ascending) with fresh stamps (induction over histories); a lookup returns an "
